@@ -91,6 +91,10 @@ var forms = map[string]string{
 	"slit": `"x"`, "svar": "$x", "scat": "$x $y", "scatlit": `$x "z"`, "sif": `if($x, $y, "no")`,
 	"supper": "std.toupper($x)", "sregsub": `regsub($x, "(.)", "\1\1")`, "sgroup": "re.group.1",
 	"scatint": `"n" $x`, "sfcall": "f2($x)",
+	"sempty": `""`, "stplus": `$x + 5m + "z"`, "stminus": `$x - 90s + "z"`, "stmid": `"at " $x + 90s ";"`, "stvar": `"t" $x`,
+	"tlit": "std.integer2time(1000000000)", "tvar": "$x",
+	"band": "($x && $y)", "bor": "($x || $y)", "bne": "($x != $y)", "bnmatch": `($x !~ "^q")`, "brge": "($x >= $y)",
+	"bfle": "($x <= $y)", "btgt": "($x > $y)", "bteq": `($x + 1h + "" == "x")`,
 	"blit": "true", "bvar": "$x", "bnot": "(!$x)", "blt": "($x < $y)", "bneglt": "(-$x < 0)", "bmatch": `($x ~ "^(.)(.*)")`,
 	"beq": "($x == $y)", "bfgt": "($x > 1.0)", "bfneg": "(-$x < 0.0)", "brneg": "(-$x < 0s)",
 }
@@ -118,13 +122,13 @@ type poolName struct {
 
 func buildPool() []poolName {
 	var p []poolName
-	for _, n := range []string{"var.i", "var.j", "var.f", "var.r", "var.s", "var.t", "var.b", "var.p", "var.q",
+	for _, n := range []string{"var.i", "var.j", "var.f", "var.r", "var.s", "var.t", "var.b", "var.tm", "var.p", "var.q",
 		"re.group.0", "re.group.1", "re.group.2"} {
 		p = append(p, poolName{n, ""})
 	}
 	rs := map[string]string{"req": "", "bereq": "fetch", "beresp": "fetch", "obj": "error", "resp": "deliver"}
 	for _, o := range []string{"req", "bereq", "beresp", "obj", "resp"} {
-		for _, h := range []string{"H1", "h1", "H1:a", "H2"} {
+		for _, h := range []string{"H1", "h1", "H1:a", "H2", "H3", "H4"} {
 			p = append(p, poolName{o + ".http." + h, rs[o]})
 		}
 	}
@@ -198,7 +202,8 @@ func (b *builder) block(sub string, parent int, br string, indent string) {
 }
 
 const mainPrelude = `declare local var.i INTEGER; declare local var.j INTEGER; declare local var.f FLOAT; declare local var.r RTIME;
-declare local var.s STRING; declare local var.t STRING; declare local var.b BOOL;
+declare local var.s STRING; declare local var.t STRING; declare local var.b BOOL; declare local var.tm TIME;
+set var.tm = std.integer2time(1000000000);
 set var.i = 3; set var.j = 4; set var.f = 1.5; set var.r = 2s; set var.s = "sv"; set var.t = "tv"; set var.b = true;`
 
 func buildVCL(p *fProg) (string, map[int]lineInfo) {
@@ -249,6 +254,8 @@ func encode(v value.Value, err error) string {
 		return fmt.Sprintf("R=%d", int64(t.Value))
 	case *value.Boolean:
 		return fmt.Sprintf("B=%v", t.Value)
+	case *value.Time:
+		return fmt.Sprintf("T=%d/%v%v", t.Value.UnixNano(), t.OutOfBounds, t.IsNotSet)
 	}
 	return string(v.Type()) + "=" + v.String()
 }
@@ -326,7 +333,7 @@ func (r *recorder) sidAt(block string, idx int) int {
 
 // headers every object starts with (written in a scope where the object is writable, before the program runs)
 func initStmts(obj string) string {
-	return fmt.Sprintf(`set %s.http.H1 = "a=%s1,b=2"; set %s.http.H2 = "%s2";`, obj, obj, obj, obj)
+	return fmt.Sprintf(`set %s.http.H1 = "a=%s1,b=2"; set %s.http.H2 = "%s2"; set %s.http.H4 = "";`, obj, obj, obj, obj, obj)
 }
 
 func runProgram(id string, p *fProg, keepVCL bool) (tr fTrace) {
